@@ -66,3 +66,28 @@ def sha(s):
 
 def strip_ws(s):
     return re.sub(r"\s+", " ", s).strip()
+
+
+class atomic_open:
+    """`with atomic_open(path) as f:` — writes to a temporary file and renames it into place, so that a concurrently
+    running check never reads a half-written dump (the dumps are shared by all checks)."""
+
+    def __init__(self, path):
+        self.path = path
+        self.tmp = path + ".tmp%d" % os.getpid()
+
+    def __enter__(self):
+        os.makedirs(os.path.dirname(self.path), exist_ok=True)
+        self.f = open(self.tmp, "w", encoding="utf-8")
+        return self.f
+
+    def __exit__(self, exc_type, exc, tb):
+        self.f.close()
+        if exc_type is None:
+            os.replace(self.tmp, self.path)
+        else:
+            try:
+                os.remove(self.tmp)
+            except OSError:
+                pass
+        return False
